@@ -9,6 +9,7 @@ use crate::drive::{self, St};
 use crate::model;
 use crate::props::bad_replay;
 use ckc_rs::cards::two::Two;
+use ckc_rs::cards::HandValidator;
 use ckc_rs::{PokerCard, Shifty};
 use std::collections::BTreeMap;
 
@@ -76,6 +77,41 @@ fn check_pair(st: &mut St<X>, a: u8, b: u8) {
     }
     if shifted != got {
         st.rep.violation("the score ignores suit shifting", "Two::chen_formula", inp(), format!("{}", got), format!("{} after shift_suit", shifted));
+    }
+    // every way of making the same two-card hand scores the same: the array conversions, the hand's own sort,
+    // the text parser (both renderings) and the bit-set conversion (which may order the two cards as it likes)
+    {
+        let txt = |glyph: bool| -> &'static str {
+            let one = |i: u8| {
+                if glyph {
+                    format!("{}{}", model::RANK_CHARS[model::rank_of(i) as usize], ['♠', '♥', '♦', '♣'][model::suit_of(i) as usize])
+                } else {
+                    model::card_name(i)
+                }
+            };
+            let t = format!("{} {}", one(a), one(b));
+            Box::leak(t.into_boxed_str())
+        };
+        let made: [(&str, Option<Two>); 6] = [
+            ("Two::from([u32; 2])", Some(Two::from([wa, wb]))),
+            ("Two::from(&[u32; 2])", Some(Two::from(&[wa, wb]))),
+            ("Two::sort", Some(t.sort())),
+            ("Two::try_from(&str) letters", Two::try_from(txt(false)).ok()),
+            ("Two::try_from(&str) glyphs", Two::try_from(txt(true)).ok()),
+            ("Two::try_from(BinaryCard)", Two::try_from(model::bit(a) | model::bit(b)).ok()),
+        ];
+        st.rep.evaluations += 6;
+        for (how, hand) in made {
+            match hand {
+                Some(h) => {
+                    let s = h.chen_formula() as i32;
+                    if s != want {
+                        st.rep.violation("the score equals Bill Chen's formula (hand made through another constructor)", &format!("{} then chen_formula", how), inp(), format!("{}", want), format!("{} for the hand {:08X?}", s, h.to_arr()));
+                    }
+                }
+                None => st.rep.violation("the score equals Bill Chen's formula (hand made through another constructor)", how, inp(), format!("a hand scoring {}", want), "no hand".into()),
+            }
+        }
     }
     // ... and keeps ignoring it however often the hand is shifted (a shifted hand is a hand like any other:
     // its score, suitedness and gap must still be those of the two ranks), in both slot orders
